@@ -67,6 +67,20 @@ def evaluate(case):
     for k in first:
         if not np.array_equal(again[k].toarray().astype(float), first[k]):
             return f"{k}: a second call on the same object (after get_full_prefactors) returns different values"
+    # ... and the sub-grid matrices the composition is built from are untouched by it (rotation-only / position-only grids hand
+    # the sub-grid's own matrix through)
+    with quiet():
+        for prop in ("adjacency", "border_len", "center_distances"):
+            P2 = fg.position_grid._get_N_N_position_array(sel_property=prop).toarray().astype(float)
+            O2 = (fg.b_rotations.get_spherical_voronoi()._calculate_N_N_array(sel_property=prop).toarray().astype(float)
+                  if n_b > 1 else np.zeros((1, 1)))
+            if not (np.array_equal(P2, P[prop]) and np.array_equal(O2, O[prop])):
+                return f"{prop}: the sub-grid matrix changed after get_full_prefactors / repeated requests on the same object"
+        from .common import caller_mutation_visible
+        bad = caller_mutation_visible({"adjacency": fg.get_full_adjacency, "border_len": fg.get_full_borders,
+                                       "center_distances": fg.get_full_distances, "prefactors": fg.get_full_prefactors})
+    if bad:
+        return f"getters {bad} hand out a buffer that later requests return again (changed by the caller in between)"
     if pre is not None:
         with np.errstate(divide="ignore", invalid="ignore"):
             expp = np.where(first["center_distances"] != 0, first["border_len"] / np.where(first["center_distances"] != 0, first["center_distances"], 1) / vols[:, None], 0.0)
